@@ -893,11 +893,28 @@ def _monitored_search(orig, template, schedule, inner_dims, extra_checks):
         yield s
 
 
+def _fit_on_scheduler_result(template, result, args, kwargs):
+    """C16 on the value the public entry point hands out (not only on what the search yields: the two can differ when the entry
+    point keeps results between calls)."""
+    if not getattr(ST, "check_fit", False):
+        return
+    try:
+        req, _unknown = _requested_from(kwargs.get("extra_checks", args[0] if args else ()), _ORIG)
+        fit_check(raw_collection(template), raw_collection(result), req, "scheduler() return value")
+        ST.bump("eval:scheduler_result_fit")
+    except Exception as e:
+        ST.bump("oracle_error:scheduler_fit:" + type(e).__name__)
+
+
 def _wrap_scheduler(orig):
     @functools.wraps(orig)
     def scheduler(template, schedule, *args, **kwargs):
-        if ST.search_depth or not ST.check_img:
+        if ST.search_depth:
             return orig(template, schedule, *args, **kwargs)
+        if not ST.check_img:
+            result = orig(template, schedule, *args, **kwargs)
+            _fit_on_scheduler_result(template, result, args, kwargs)
+            return result
         pre = None
         try:
             raws = raw_collection(schedule)
@@ -925,6 +942,7 @@ def _wrap_scheduler(orig):
                 )
         except Exception as e:
             ST.bump("oracle_error:scheduler:" + type(e).__name__)
+        _fit_on_scheduler_result(template, result, args, kwargs)
         return result
 
     scheduler._vf_orig = orig
@@ -1160,6 +1178,7 @@ def drive_pass(ctx, case, seconds=10.0):
         info["generator_invalid"] = True
         return info
     befores = []
+    op_requests = []
     for k, op in enumerate(ops):
         try:
             bounds, mats = operation_box(op)
@@ -1175,6 +1194,13 @@ def drive_pass(ctx, case, seconds=10.0):
             ST.bump("out_of_domain:pass:box-too-large")
             return info
         befores.append((bounds, mats, img(bounds, [np.array(A, dtype=np.int64).reshape(len(A), len(bounds)) for A, _ in mats], [np.array(b, dtype=np.int64) for _, b in mats])))
+        # what the pass will ask of the scheduler for THIS operation (read off the op, not off what the search happens to evaluate)
+        try:
+            sizes_k = tuple(int(o.type.element_type.size) for o in op.operands)
+            T_k = ctx.get_acc(case["accelerator"]).get_template(op).num_dims
+        except Exception:
+            sizes_k, T_k = None, None
+        op_requests.append((sizes_k, T_k))
     spec = f"insert-accfg-op{{accelerator={case['accelerator']}}},dart-scheduler"
     try:
         run_passes_limited(ctx, module, spec, seconds)
@@ -1211,6 +1237,21 @@ def drive_pass(ctx, case, seconds=10.0):
         info["n_out"] = len(ob)
         info["changed"] = info["changed"] or len(ob) != len(bounds) or any(a[0] != b[0] for a, b in zip(mats, omats))
         ST.bump("eval:pass_img")
+        sizes_k, T_k = op_requests[outs.index(so)]
+        if getattr(ST, "check_fit", False) and sizes_k is not None and T_k:
+            try:
+                mats_np = [np.array(A, dtype=np.int64).reshape(len(A), len(ob)) for A, _ in omats]
+                ok, how = restated_memory_flexible(tuple(ob), mats_np, T_k, sizes_k)
+                ST.bump(f"eval:pass_fit_mem_{how}")
+                if not ok:
+                    ST.violation(
+                        "memory-not-flexible-enough",
+                        f"dart-scheduler: the schedule emitted for operation {outs.index(so) + 1} of {len(ops)} (bounds {ob}, element sizes {list(sizes_k)}, {T_k} template dims) "
+                        f"has an operand without a unit-stride spatial result whose temporal strides are bank-word multiples, although the pass requests that constraint for every operation",
+                        "dart-scheduler",
+                    )
+            except Exception as e:
+                ST.bump("oracle_error:pass_fit:" + type(e).__name__)
         if not img_equal(before, after):
             ST.violation(
                 "pass-changes-iteration-space",
